@@ -6,6 +6,7 @@ import Astisub.Driver.Lib
 import Astisub.Driver.SRT
 import Astisub.Driver.VTT
 import Astisub.Driver.SSA
+import Astisub.Driver.Teletext
 
 open Astisub Astisub.Driver Astisub.Proto
 
@@ -23,6 +24,7 @@ def handleLine (line : String) : Verdict :=
     else if op.startsWith "io." || op == "lib.scanner" || op == "det.write" || op == "conc.batch" then handleIO op args impl
     else if op.startsWith "vtt." then handleVTT op args impl
     else if op.startsWith "ssa." then handleSSA op args impl
+    else if op.startsWith "teletext." then handleTeletext op args impl
     else .bad s!"unknown stream {op}"
 
 structure Stats where
